@@ -162,31 +162,72 @@ def rule_errprop(ctx, R):
     R.floor("propagated_engine_results", n)
 
 
+class ConnErrSpec(__import__("boolpath").Spec):
+    """evidence: the error at hand is a Connection / Io error (the peer is gone).  The test may be a
+    match on the error's discriminant or a bool predicate on the error type
+    (`FerrousError::is_connection_failure()`), summarised with the same spec."""
+
+    def __init__(s, ctx, memo=None):
+        s.ctx = ctx; s.memo = memo if memo is not None else {}
+
+    def edges(s, b, bbi, t):
+        out = []
+        if op_is_const(t["d"]):
+            return out
+        dl = op_place(t["d"])["l"]
+        for st in reversed(b.bbs[bbi]["s"]):
+            if st["k"] == "=" and st["l"]["l"] == dl and not st["l"]["p"]:
+                if st["r"]["k"] == "discr":
+                    ty = place_type(s.ctx, b, st["r"]["p"])
+                    if ty and ty.replace("&", "").replace("mut ", "").strip() == "error::FerrousError":
+                        for v, tb in t["ts"]:
+                            if s.ctx.prog.variant_name("error::FerrousError", v) in ("Connection", "Io"):
+                                out.append(tb)
+                break
+        return out
+
+    def call(s, b, bbi, t):
+        import boolpath
+        c = callee(t)
+        cb = s.ctx.prog.bodies.get(c)
+        if cb is None or cb.locals[0] != "bool" or not any("error::FerrousError" in ty for ty in cb.arg_tys()):
+            return None
+        if c not in s.memo:
+            s.memo[c] = None
+            try:
+                s.memo[c] = boolpath.ret_kind(cb, ConnErrSpec(s.ctx, s.memo))
+            except boolpath.TooManyStates:
+                s.memo[c] = None
+        return s.memo[c]
+
+
 def is_conn_error_filter(ctx, fn):
     """fn takes a FerrousError and returns Result<RespFrame,_>; every block that builds an Err
-    result lies in the Connection/Io arms of a switch on the error's discriminant, and the
-    function calls nothing that could fail otherwise"""
+    result is reached only where the error is known to be a Connection/Io error (path-sensitive:
+    a match on the discriminant, a bool predicate on the error, an early return)"""
     def compute():
+        import boolpath
         b = ctx.prog.bodies[fn]
         if not any(ty == "error::FerrousError" for ty in b.arg_tys()):
             return False
-        arms = ferrous_error_arms(ctx, b)
-        if not arms:
-            return False
-        allowed = set()
-        for sw, names, other in arms:
-            for n, tb in names.items():
-                if n in ("Connection", "Io"):
-                    allowed |= cfg.edge_dom_set(b, sw, tb)
         errs = []
         for i, bb in enumerate(b.bbs):
+            if bb.get("cleanup"):
+                continue
             for st in bb["s"]:
                 if st["k"] == "=" and st["r"]["k"] == "agg" and st["r"]["a"] == "std::result::Result::Err":
                     errs.append(i)
             t = bb["t"]
             if t["k"] == "call" and "from_residual" in t["def"]:
                 errs.append(i)
-        return bool(errs) and all(e in allowed for e in errs)
+        if not errs:
+            return False
+        spec = ConnErrSpec(ctx)
+        try:
+            ex = boolpath.explore(b, spec)
+        except boolpath.TooManyStates:
+            return False
+        return bool(ex.evidence_switches) and all(e not in ex.reached for e in errs)
     return ctx.memo(("filter", fn), compute)
 
 
@@ -812,6 +853,10 @@ def rule_codec_table(ctx, R):
     for v, c in sorted(ser.items()):
         built = par.get(c)
         R.inst(SER, "type-byte:" + v, {"variant": v, "byte": c, "parser_builds": sorted(built) if built is not None else None})
+        if built is None and (c in "\r\n" or c.isalnum()):
+            # not a type byte at all: the arm's first constant write is a length / terminator, i.e.
+            # the arm's shape is not the one this rule reads (merged arms, header helper)
+            R.broken.append("serializer arm of RespFrame::%s not recognised (first constant write %r)" % (v, c)); continue
         if built is None:
             R.finding(SER, "type-byte:%s:unknown-to-parser" % v, "RespFrame::%s is serialised with type byte %r which the parser does not accept" % (v, c), b.loc())
         elif v not in built:
@@ -826,6 +871,8 @@ def rule_codec_table(ctx, R):
     for fn, const in ((PARSER + "parse_bulk_string", "$-1\r\n"), (PARSER + "parse_array", "*-1\r\n")):
         pb = ctx.prog.need(fn)
         has = any(st["k"] == "=" and st["r"]["k"] == "bin" and st["r"]["op"] == "Eq" and (const_int(st["r"]["a"]) == -1 or const_int(st["r"]["b"]) == -1) for bb2 in pb.bbs for st in bb2["s"])
+        # `match declared_len { -1 => null, .. }`: a literal arm of a switch on the signed length
+        has = has or any(bb2["t"]["k"] == "switch" and any(int(v_) in (-1, (1 << 64) - 1, (1 << 63) * 2 - 1) for v_, _ in bb2["t"]["ts"]) and str(bb2["t"].get("dty", "")).startswith("i") for bb2 in pb.bbs)
         wrote = False
         for y, bb2 in enumerate(b.bbs):
             tt = bb2["t"]
